@@ -111,8 +111,15 @@ package adapter
 
 // Helpers and set-iteration callbacks that run inside their caller's critical section of a.mu (the callbacks are
 // called synchronously by mapset's Each: assumed contract of Each); callers owe the lock (checked at static calls).
+// Leave (room index half): exactly (sid, room) leaves the room -> sockets index; an emptied room may be dropped.
 //@ func (*inMemoryAdapter).delete
 //@   holds a.mu
+//@   opt safety off
+//@   requires a != nil && idxOK(a)
+//@   modifies mapof(a.rooms), smem(), scard()
+//@   ensures idxOK(a) [C04.index.wellformed.leave.room]
+//@   ensures forall s SocketID :: forall r Room :: rmem(a, s, r) == (old(rmem(a, s, r)) && !(s == sid && r == room)) [C04.leave.room.index]
+//@   ensures forall s SocketID :: forall r Room :: mem(a, s, r) == old(mem(a, s, r)) [C04.leave.room.frame]
 //@ func (*inMemoryAdapter).computeExceptSids
 //@   holds a.mu
 //@ func (*inMemoryAdapter).computeExceptSids$1
@@ -123,3 +130,75 @@ package adapter
 //@   holds a.mu
 //@ func (*inMemoryAdapter).apply$1$1
 //@   holds a.mu
+
+// ---------------------------------------------------------------------------------------------
+// C04. Broadcast operators are immutable values: To / Except return a NEW operator whose target / except set is the
+// old one plus the arguments; the receiver's sets are unchanged (so a stored operator keeps selecting the same rooms).
+//@ define inargs(room []Room, n int, y string) bool = n <= 0 ? false : (room[n-1] == y || inargs(room, n - 1, y))
+
+//@ func (*BroadcastOperator).To
+//@   opt safety off
+//@   requires b != nil && b.rooms != nil && b.exceptRooms != nil && salloc(b.rooms) && salloc(b.exceptRooms)
+//@   modifies smem(), scard(), salloc(), maxalloc()
+//@   ensures result != nil && result != b && result.rooms != nil && result.exceptRooms == old(b.exceptRooms) && result.adapter == old(b.adapter) && result.nsp == old(b.nsp) [C04.op.to.fresh]
+//@   ensures forall y string :: smem(result.rooms, y) == (old(smem(b.rooms, y)) || inargs(room, len(room), y)) [C04.op.to.union]
+//@   ensures b.rooms == old(b.rooms) && b.exceptRooms == old(b.exceptRooms) && (forall y string :: smem(b.rooms, y) == old(smem(b.rooms, y)) && smem(b.exceptRooms, y) == old(smem(b.exceptRooms, y))) [C04.op.to.immutable]
+//@   loop 0 invariant n.rooms != nil && n.rooms != b.rooms && n.rooms != b.exceptRooms && salloc(n.rooms) && !was(salloc(n.rooms)) && n.exceptRooms == old(b.exceptRooms) && n.adapter == old(b.adapter) && n.nsp == old(b.nsp)
+//@   loop 0 invariant forall y string :: smem(n.rooms, y) == (old(smem(b.rooms, y)) || inargs(room, rangeindex + 1, y))
+//@   loop 0 invariant forall t any :: forall y string :: was(salloc(t)) ==> smem(t, y) == was(smem(t, y))
+
+//@ func (*BroadcastOperator).Except
+//@   opt safety off
+//@   requires b != nil && b.rooms != nil && b.exceptRooms != nil && salloc(b.rooms) && salloc(b.exceptRooms)
+//@   modifies smem(), scard(), salloc(), maxalloc()
+//@   ensures result != nil && result != b && result.exceptRooms != nil && result.rooms == old(b.rooms) && result.adapter == old(b.adapter) && result.nsp == old(b.nsp) [C04.op.except.fresh]
+//@   ensures forall y string :: smem(result.exceptRooms, y) == (old(smem(b.exceptRooms, y)) || inargs(room, len(room), y)) [C04.op.except.union]
+//@   ensures b.rooms == old(b.rooms) && b.exceptRooms == old(b.exceptRooms) && (forall y string :: smem(b.rooms, y) == old(smem(b.rooms, y)) && smem(b.exceptRooms, y) == old(smem(b.exceptRooms, y))) [C04.op.except.immutable]
+//@   loop 0 invariant n.exceptRooms != nil && n.exceptRooms != b.rooms && n.exceptRooms != b.exceptRooms && salloc(n.exceptRooms) && !was(salloc(n.exceptRooms)) && n.rooms == old(b.rooms) && n.adapter == old(b.adapter) && n.nsp == old(b.nsp)
+//@   loop 0 invariant forall y string :: smem(n.exceptRooms, y) == (old(smem(b.exceptRooms, y)) || inargs(room, rangeindex + 1, y))
+//@   loop 0 invariant forall t any :: forall y string :: was(salloc(t)) ==> smem(t, y) == was(smem(t, y))
+
+// Emit hands the adapter exactly the operator's selection (its target and except sets), the namespace, and the event
+// name followed by the arguments in order.
+//@ func (*BroadcastOperator).Emit
+//@   opt safety off
+//@   requires b != nil
+//@   panics_if true       // documented: reserved event names and callback arguments are rejected by panicking
+//@   ghost sent int = 0
+//@   callsite isEventReserved skip
+//@   callsite TypeOf skip
+//@   callsite Kind skip
+//@   callsite Adapter.Broadcast
+//@     requires arg2 != nil && arg2.Rooms == b.rooms && arg2.Except == b.exceptRooms && arg2.Flags == b.flags [C04.emit.selection]
+//@     requires arg0 != nil && arg0.Type == parser.PacketTypeEvent && arg0.Namespace == b.nsp && arg0.ID == nil [C04.emit.header]
+//@     requires len(arg1) == len(_v) + 1 && unbox(arg1[0], string) == eventName && (forall k int :: 0 <= k && k < len(_v) ==> arg1[k+1] == old(_v[k])) [C01.broadcast.args.in.order]
+//@     update sent = sent + 1
+//@   ensures sent <= 1 [C04.emit.once]
+
+// The two indexes (room -> sockets, socket -> rooms) of the in-memory adapter: every entry is a set of its own (no
+// two entries share a set object) and the indexes are mutually inverse. Whether empty room sets are kept or dropped
+// is deliberately not part of the invariant. mem(a, s, r): socket s is in room r.
+//@ define mem(a *inMemoryAdapter, s string, r string) bool = (s in a.sids) && smem(a.sids[s], r)
+//@ define rmem(a *inMemoryAdapter, s string, r string) bool = (r in a.rooms) && smem(a.rooms[r], s)
+//@ define idxOK(a *inMemoryAdapter) bool = a.sids != nil && a.rooms != nil && (forall s SocketID :: (s in a.sids) ==> a.sids[s] != nil && salloc(a.sids[s])) && (forall r Room :: (r in a.rooms) ==> a.rooms[r] != nil && salloc(a.rooms[r])) && (forall s1 SocketID :: forall s2 SocketID :: (s1 in a.sids) && (s2 in a.sids) && s1 != s2 ==> a.sids[s1] != a.sids[s2]) && (forall r1 Room :: forall r2 Room :: (r1 in a.rooms) && (r2 in a.rooms) && r1 != r2 ==> a.rooms[r1] != a.rooms[r2]) && (forall s SocketID :: forall r Room :: (s in a.sids) && (r in a.rooms) ==> a.sids[s] != a.rooms[r])
+//@ define inverse(a *inMemoryAdapter) bool = forall s SocketID :: forall r Room :: mem(a, s, r) == rmem(a, s, r)
+
+// Join: membership afterwards is membership before plus (sid, r) for every r in the argument - nothing else changes.
+//@ func (*inMemoryAdapter).AddAll
+//@   opt safety off
+//@   requires a != nil && idxOK(a) && inverse(a)
+//@   modifies mapof(a.sids), mapof(a.rooms), smem(), scard(), salloc(), maxalloc()
+//@   ensures idxOK(a) [C04.index.wellformed.join]
+//@   ensures inverse(a) [C04.index.inverse.join]
+//@   ensures forall s SocketID :: forall r Room :: mem(a, s, r) == (old(mem(a, s, r)) || (s == sid && inargs(rooms, len(rooms), r))) [C04.join.neteffect]
+//@   loop 0 invariant idxOK(a) && inverse(a) && (sid in a.sids)
+//@   loop 0 invariant forall s SocketID :: forall r Room :: mem(a, s, r) == (old(mem(a, s, r)) || (s == sid && inargs(rooms, rangeindex + 1, r)))
+
+// Leave: membership afterwards is membership before minus exactly (sid, room).
+//@ func (*inMemoryAdapter).Delete
+//@   opt safety off
+//@   requires a != nil && idxOK(a) && inverse(a)
+//@   modifies mapof(a.rooms), smem(), scard()
+//@   ensures idxOK(a) [C04.index.wellformed.leave]
+//@   ensures inverse(a) [C04.index.inverse.leave]
+//@   ensures forall s SocketID :: forall r Room :: mem(a, s, r) == (old(mem(a, s, r)) && !(s == sid && r == room)) [C04.leave.neteffect]
